@@ -37,6 +37,7 @@ type FuncContract struct {
 	Modifies  []Expr
 	ModAll    []string // whole heap arrays: "lexer.pos"
 	Loops     map[int]*LoopSpec
+	InlineLoops map[string]map[int]*LoopSpec // loop <callee>:<n> ...: loops of a callee inlined into this function
 	Trusted   bool // contract assumed, body not verified (listed)
 	Pure      bool
 	NoBody    bool // do not verify body (interface method etc.)
@@ -301,6 +302,10 @@ func (sp *Specs) LoadSpecFile(path, pkgPath string) error {
 			if len(parts) < 3 {
 				return fail("loop <n> invariant|decreases <expr>")
 			}
+			inlineOf := ""
+			if i := strings.Index(parts[0], ":"); i > 0 {
+				inlineOf, parts[0] = parts[0][:i], parts[0][i+1:]
+			}
 			if _, err := fmt.Sscanf(parts[0], "%d", &n); err != nil {
 				return fail("loop ordinal: %v", err)
 			}
@@ -310,10 +315,25 @@ func (sp *Specs) LoadSpecFile(path, pkgPath string) error {
 				lbl = kind[i+1 : len(kind)-1]
 				kind = kind[:i]
 			}
-			ls := cur.Loops[n]
-			if ls == nil {
-				ls = &LoopSpec{}
-				cur.Loops[n] = ls
+			var ls *LoopSpec
+			if inlineOf != "" {
+				if cur.InlineLoops == nil {
+					cur.InlineLoops = map[string]map[int]*LoopSpec{}
+				}
+				if cur.InlineLoops[inlineOf] == nil {
+					cur.InlineLoops[inlineOf] = map[int]*LoopSpec{}
+				}
+				ls = cur.InlineLoops[inlineOf][n]
+				if ls == nil {
+					ls = &LoopSpec{}
+					cur.InlineLoops[inlineOf][n] = ls
+				}
+			} else {
+				ls = cur.Loops[n]
+				if ls == nil {
+					ls = &LoopSpec{}
+					cur.Loops[n] = ls
+				}
 			}
 			switch kind {
 			case "invariant":
